@@ -9,15 +9,19 @@ U(t, n, salt) == <<2 * 32 + t>> \o Pat(n - 1, salt)
 Obu(t, n, salt) == [type |-> t, ext |-> FALSE, tid |-> 0, sid |-> 0, r3 |-> 0, r1 |-> 0, hassize |-> TRUE, payload |-> Pat(n, salt)]
 H264Frames(n) == << <<U(5, n, 1)>>, <<U(1, 3, 2), U(1, n, 3)>>, <<U(1, 2, 4)>>, <<U(5, 2 * n, 5), U(1, 4, 6), U(1, 5, 7)>> >>
 AV1Frames(n) == << <<Obu(1, 3, 1), Obu(6, n, 2)>>, <<Obu(6, 2, 3)>>, <<Obu(3, n, 4), Obu(4, 2 * n, 5), Obu(6, 1, 6)>> >>
+\* VP8 frames and Opus packets: one byte string per frame (an Opus packet is never split: it has to fit the packet)
+VP8Frames(n) == << <<Pat(n, 1)>>, <<Pat(3, 2)>>, <<Pat(2 * n, 3)>>, <<Pat(1, 4)>> >>
+OpusFrames(n, mtu) == << <<Pat(Min(n, mtu - 12), 1)>>, <<Pat(1, 2)>>, <<Pat(Min(2 * n, mtu - 12), 3)>> >>
+Codecs == <<"h264", "av1", "vp8", "opus">>
 Starts == <<0, 65533, 65535, 30000>>
 Case(codec, mi, si, st) ==
   [fam |-> "G07", codec |-> codec, mtu |-> MtuSeq[mi], seqstart |-> Starts[st],
-   frames |-> IF codec = "h264" THEN H264Frames(SizeSeq[si]) ELSE <<>>,
+   frames |-> IF codec = "h264" THEN H264Frames(SizeSeq[si]) ELSE IF codec = "vp8" THEN VP8Frames(SizeSeq[si]) ELSE IF codec = "opus" THEN OpusFrames(SizeSeq[si], MtuSeq[mi]) ELSE <<>>,
    obus |-> IF codec = "av1" THEN AV1Frames(SizeSeq[si]) ELSE <<>>,
    class |-> codec \o "_mtu" \o ToString(MtuSeq[mi])]
-Raw == [j \in 1..(2 * Len(MtuSeq) * Len(SizeSeq) * 4) |->
+Raw == [j \in 1..(4 * Len(MtuSeq) * Len(SizeSeq) * 4) |->
           LET k == j - 1 IN
-          Case(IF k % 2 = 0 THEN "h264" ELSE "av1", ((k \div 2) % Len(MtuSeq)) + 1, ((k \div (2 * Len(MtuSeq))) % Len(SizeSeq)) + 1, ((k \div (2 * Len(MtuSeq) * Len(SizeSeq))) % 4) + 1)]
+          Case(Codecs[(k % 4) + 1], ((k \div 4) % Len(MtuSeq)) + 1, ((k \div (4 * Len(MtuSeq))) % Len(SizeSeq)) + 1, ((k \div (4 * Len(MtuSeq) * Len(SizeSeq))) % 4) + 1)]
 CaseSeq == [i \in 1..Len(Raw) |-> Raw[i] @@ [case |-> i]]
 ASSUME WriteCases(CaseSeq) /\ PrintT(<<"CASES", Len(CaseSeq)>>)
 =============================================================================
